@@ -65,7 +65,13 @@ func (ck *Checker) Faithful(d diff.ValueDiff, old, new starlark.Value, path stri
 		}
 		return ""
 	default:
-		return fmt.Sprintf("%s: unexpected diff type %T", path, d)
+		// another kind of diff (the package has a SetDiff type): the statement speaks of sequences
+		// and mappings only, so for any other pair of values the sides checked above are all that is
+		// claimed
+		if (oldIsS && newIsS) || (oldIsM && newIsM) {
+			return fmt.Sprintf("%s: diff type %T for two sequences / two mappings", path, d)
+		}
+		return ""
 	}
 }
 
